@@ -50,7 +50,7 @@ pub fn union_hash_h() {
 #[kani::unwind(%d)]
 pub fn union_clone_h() {
     let a = oracle::mk(&mut KaniSrc);
-    let c = a.clone();
+    let c = Clone::clone(&a);
     assert!(oracle::bytes(&c) == oracle::bytes(&a), "contract: clone is a bitwise copy");
     oracle::needs_copy::<TI>();
     kani::cover!(true);
@@ -58,4 +58,4 @@ pub fn union_clone_h() {
 """ % (n + 2))
         u.kani_oracle.append("pub fn needs_copy<T: Copy>() {}\n")
         u.kani_obls["union_clone_h"] = ("%s/%s/Clone::clone/contract" % (prop, P.pid), "bytes(a.clone()) == bytes(a); the union is Copy")
-        u.replay.append('{ let a = oracle::mk(s); let c = a.clone(); chk(out, "bytes(a.clone())", oracle::bytes(&c), oracle::bytes(&a)); }')
+        u.replay.append('{ let a = oracle::mk(s); let c = Clone::clone(&a); chk(out, "bytes(a.clone())", oracle::bytes(&c), oracle::bytes(&a)); }')
